@@ -8,7 +8,8 @@ RULE = ("every wire type (element, exponent, plaintext, Ciphertext, PublicKey, P
         "(identity, generator, exponent 0 / q-1, plaintext 0 / 255 / 256 / 65535 / 65536, empty vectors, vectors of length 1..3 and 65 / 129 / 300) and "
         "random values: bytes produced by the implementation == bytes produced by the Gallina writers; decode(encode v) == v; "
         "encodings with one byte appended, one byte removed, and sampled single-bit flips decode to what the model says (value or "
-        "error); distinct values give distinct encodings")
+        "error); distinct values give distinct encodings"
+        " Added in session 3: appended line terminators, blanks, 0xff, a zero u32, the encoding doubled;")
 
 
 def values(ctx, r, quick):
